@@ -104,6 +104,20 @@ fn gen_case(prop: &str, seed: u64, i: u64, corpus: &Corpus) -> Case {
       return Case { kind: "regression".into(), label: n.clone(), user: p, entry: "Main".into(), features: BTreeSet::new() };
     }
   }
+  if i % 20 == 7 {
+    // string literals by adjacency of escape sequences and target-language special characters:
+    // printed, concatenated and compared (the window of the enumeration moves with seed and i)
+    let total = crate::exprgen::string_literal_count(true);
+    let start = (seed as usize).wrapping_mul(7919).wrapping_add(i as usize * 48) % total;
+    let mut body = String::new();
+    for k in 0..48 {
+      let lit = crate::exprgen::string_literal(start + k, true);
+      let next = crate::exprgen::string_literal(start + k + 1, true);
+      body.push_str(&format!("    Process.println(\"[\" :: {lit} :: \"]\");\n    Process.println(Main.b({lit} == {next}) :: Main.b({lit} :: \"\" == {lit}) :: Main.b(Main.id({lit}) == {lit}));\n"));
+    }
+    let text = format!("class Main {{\n  function b(x: bool): Str = if x {{ \"T\" }} else {{ \"F\" }}\n  function id(s: Str): Str = s\n  function main(): unit = {{\n{body}  }}\n}}\n");
+    return Case { kind: "string-table".into(), label: format!("string literals {start}..{}", start + 48), user: Project::single("str.Table", &text), entry: "str.Table".into(), features: BTreeSet::new() };
+  }
   let table_every = if prop == "C04" { 12 } else { 60 };
   if i % table_every == 1 {
     let p = operator_table(&mut rng);
@@ -253,7 +267,39 @@ fn worker(prop: &str, ctx: WorkerCtx) {
         v["front_panic"] = json!(p);
       }
       let mut fails = Vec::new();
-      for (symptom, what) in judge(prop, &o) {
+      // the real engine against the interpreter (calibration of the monitor itself), then the
+      // property judged once more with the real engine's run in place of the interpreter's
+      let mut judged = judge(prop, &o);
+      if let (Some(w), Some(r)) = (&o.wasm_trace, &o.v8_trace) {
+        if matches!(r.ending, Ending::StepLimit | Ending::Harness(_)) {
+          v["v8"] = json!("unfinished");
+        } else if diffexec::engines_agree(w, r) {
+          v["v8"] = json!("agree");
+        } else {
+          v["v8"] = json!("differ");
+          v["v8_detail"] = json!({"what": diffexec::describe_diff("the wasm interpreter", w, "node", r), "replay": diffexec::render_project(&case.user)});
+        }
+        if !matches!(r.ending, Ending::StepLimit | Ending::Harness(_)) {
+          let mut o2 = o.clone();
+          o2.wasm_trace = Some(r.clone());
+          for (sym, what) in judge(prop, &o2) {
+            if !judged.iter().any(|(s0, _)| *s0 == sym) {
+              judged.push((sym, format!("{what} (observed under node's WebAssembly engine; the interpreter did not show it)")));
+            }
+          }
+        }
+      }
+      if let (Some(t), Some(r)) = (&o.ts_trace, &o.ts_native_trace) {
+        if matches!(r.ending, Ending::StepLimit | Ending::Harness(_)) {
+          v["ts_native"] = json!("unfinished");
+        } else if diffexec::engines_agree(t, r) {
+          v["ts_native"] = json!("agree");
+        } else {
+          v["ts_native"] = json!("differ");
+          v["ts_native_detail"] = json!({"what": diffexec::describe_diff("the type-erased TypeScript", t, "the TypeScript under --experimental-strip-types", r), "replay": diffexec::render_project(&case.user)});
+        }
+      }
+      for (symptom, what) in judged {
         // cause attribution by intervention: if replacing the emitted `Math.floor(a / b)` by
         // `Math.trunc(a / b)` makes the TypeScript agree with the wasm, the disagreement is exactly
         // the rounding direction of integer division
@@ -391,8 +437,14 @@ fn worker(prop: &str, ctx: WorkerCtx) {
   let _ = start;
 }
 
+fn vcore_verif() -> &'static str {
+  crate::evidence::VERIF
+}
+
 pub fn main_for(prop: &str) {
   let args: Vec<String> = std::env::args().collect();
+  // real-engine legs: the emitted wasm under node >= 22 (all three), the emitted TypeScript natively (C04)
+  diffexec::REAL_ENGINE_LEGS.store(if prop == "C04" { 3 } else { 1 }, std::sync::atomic::Ordering::SeqCst);
   if let Some(ctx) = WorkerCtx::from_args(&args) {
     pool::install_hook();
     worker(prop, ctx);
@@ -433,12 +485,30 @@ pub fn main_for(prop: &str) {
   let (mut accepted, mut compiled, mut validated, mut ts_ran, mut compared, mut erase_refused, mut instrs) = (0u64, 0u64, 0u64, 0u64, 0u64, 0u64, 0u64);
   let mut nt: BTreeSet<String> = BTreeSet::new();
   let mut disagreements = 0u64;
+  let mut real_engine: BTreeMap<String, u64> = BTreeMap::new();
+  let mut engine_mismatches: Vec<Value> = Vec::new();
   for v in &res.events {
     if v["t"].as_str() != Some("r") {
       continue;
     }
     run.evaluations += 1;
     *kinds.entry(v["kind"].as_str().unwrap_or("").to_string()).or_insert(0) += 1;
+    for (key, name) in [("v8", "wasm: interpreter vs node"), ("ts_native", "typescript: erased vs native")] {
+      if let Some(st) = v[key].as_str() {
+        *real_engine.entry(format!("{name}: {st}")).or_insert(0) += 1;
+        if st == "differ" {
+          let d = &v[format!("{key}_detail")];
+          let what = d["what"].as_str().unwrap_or("").to_string();
+          run.inconclusive(&format!("{name} disagree on a program (the monitor's own executors need attention; the property is judged with both)"));
+          if engine_mismatches.len() < 8 {
+            let path = format!("{}/replays/{prop}/engine-mismatch-{:016x}.txt", vcore_verif(), hash_str(d["replay"].as_str().unwrap_or("")));
+            let _ = std::fs::create_dir_all(format!("{}/replays/{prop}", vcore_verif()));
+            let _ = std::fs::write(&path, format!("# {name}: {what}\n{}", d["replay"].as_str().unwrap_or("")));
+            engine_mismatches.push(json!({"what": what.chars().take(300).collect::<String>(), "replay": path}));
+          }
+        }
+      }
+    }
     if v["accepted"].as_bool() == Some(true) {
       accepted += 1;
     }
@@ -507,7 +577,7 @@ pub fn main_for(prop: &str) {
     }
   }
   run.distinct_nontrivial = nt.len() as u64;
-  run.rule = "programs: tests.AllTests, well-typed-by-construction multi-module programs from the seeded generator (pgen) with property-specific knobs, run-time operator tables with operands hidden behind toInt, and (C03) checker-accepted token/range mutants of the sample programs; each is run by the reference interpreter, compiled with the real compile_sources, validated and run by the WasmGC interpreter and (C03/C04) as erased TypeScript under node; non-trivial = distinct program (content hash) that was compared and prints >= 5 lines".into();
+  run.rule = "programs: tests.AllTests, well-typed-by-construction multi-module programs from the seeded generator (pgen) with property-specific knobs, run-time operator tables with operands hidden behind toInt, and (C03) checker-accepted token/range mutants of the sample programs; each is run by the reference interpreter, compiled with the real compile_sources, validated and run by the WasmGC interpreter and, when a node >= 22 is installed, by node's WebAssembly engine with the emitted loader, and (C03/C04) as erased TypeScript under node (C04: also natively with --experimental-strip-types); non-trivial = distinct program (content hash) that was compared and prints >= 5 lines".into();
   run.cov("programs", json!(run.evaluations));
   run.cov("disagreements_checked", json!(disagreements));
   run.cov("programs_per_kind", json!(kinds));
@@ -520,6 +590,7 @@ pub fn main_for(prop: &str) {
   run.cov("wasm_instructions_executed", json!(instrs));
   run.cov("wasm_endings", json!(wasm_endings));
   run.cov("excluded_from_comparison", json!(excluded));
+  run.cov("real_engine_leg", json!({"node": crate::v8run::node().map(|p| p.display().to_string()), "outcomes": real_engine, "mismatches": engine_mismatches}));
   run.cov("generator_features_used", json!(features));
   run.assumptions = vec![
     "the reference interpreter (refint) is the language's evaluation rules; it, the WasmGC interpreter and the TS eraser+node are calibrated against tests/snapshot.txt".into(),
